@@ -11,7 +11,7 @@ from ptstat import AnalysisError
 from ptstat.symval import SymObj, Phi, SymRaise, Vec
 from ptstat.symlib import interp_f, vec_f
 from spec import neutron as spec
-from .common import eq, fsite, folder, _s, constants_lint, raises, table_data
+from .common import eq, fsite, folder, _s, constants_lint, raises, table_data, public_entry_points
 from .nworld import neutron_world
 
 EXPLANATION = (
@@ -186,6 +186,7 @@ def run(ctx):
         r = I2.call(I2.getattr(n2, "sld"), [], {"wavelength": lam})
         ctx.check(r == (None, None, None), "R5", f"Neutron.sld when {label} gives (None, None, None)",
                   f"returned {_s(r)}", fsite(ctx, "nsf.Neutron.sld"))
+    public_entry_points(ctx, "RW", [("neutron_sld", "nsf.neutron_sld"), ("neutron_scattering", "nsf.neutron_scattering")])
     ctx.floor("R5", 4)
 
     # R6 element / isotope queried directly = one-atom compound at that atom's density
